@@ -16,8 +16,9 @@ VARIABLES l, nbad,
           subm,       \* requests submitted -> [model, opt]
           pingfail,   \* TRUE once a health check was made to fail (reuse is then not required)
           unl,        \* TRUE once a model was unloaded explicitly
-          lok         \* runners whose load was reported successful
-vars == <<l, nbad, max, started, closes, got, replies, ended, subm, pingfail, unl, lok>>
+          lok,        \* runners whose load was reported successful
+          tiny        \* the configuration's only GPU is so small that no model fits next to a loaded one
+vars == <<l, nbad, max, started, closes, got, replies, ended, subm, pingfail, unl, lok, tiny>>
 Trace == ndJsonDeserialize(IOEnv.VF_TRACE)
 
 Get(f, k, d) == IF k \in DOMAIN f THEN f[k] ELSE d
@@ -25,7 +26,7 @@ Put(f, k, v) == [x \in DOMAIN f \cup {k} |-> IF x = k THEN v ELSE f[x]]
 Live == {r \in DOMAIN started : Get(closes, r, 0) = 0}
 
 Init == /\ l = 1 /\ nbad = 0 /\ max = 0 /\ started = <<>> /\ closes = <<>> /\ got = <<>> /\ replies = <<>>
-        /\ ended = {} /\ subm = <<>> /\ pingfail = FALSE /\ unl = FALSE /\ lok = {}
+        /\ ended = {} /\ subm = <<>> /\ pingfail = FALSE /\ unl = FALSE /\ lok = {} /\ tiny = FALSE
 
 Report(e, flags) ==
   /\ (flags # {}) => PrintT(<<"VFBAD", l, e.t, flags>>)
@@ -36,16 +37,18 @@ Step ==
   /\ LET e == Trace[l] IN
      CASE e.ev = "reset" ->
             /\ max' = e.max /\ started' = <<>> /\ closes' = <<>> /\ got' = <<>> /\ replies' = <<>>
-            /\ ended' = {} /\ subm' = <<>> /\ pingfail' = FALSE /\ nbad' = nbad /\ unl' = FALSE /\ lok' = {}
+            /\ ended' = {} /\ subm' = <<>> /\ pingfail' = FALSE /\ nbad' = nbad /\ unl' = FALSE /\ lok' = {} /\ tiny' = e.tiny
        [] e.ev = "submit" ->
             /\ subm' = Put(subm, e.q, [model |-> e.model, opt |-> e.opt])
-            /\ Report(e, {}) /\ UNCHANGED <<max, started, closes, got, replies, ended, pingfail, unl, lok>>
+            /\ Report(e, {}) /\ UNCHANGED <<max, started, closes, got, replies, ended, pingfail, unl, lok, tiny>>
        [] e.ev = "start" ->
             /\ started' = Put(started, e.r, [model |-> e.model, opt |-> e.opt])
             /\ Report(e,
                  (IF max > 0 /\ Cardinality(Live) + 1 > max THEN {"more-runners-than-limit"} ELSE {})
-                   \cup (IF \E r \in Live : started[r].model = e.model THEN {"two-runners-for-one-model"} ELSE {}))
-            /\ UNCHANGED <<max, closes, got, replies, ended, subm, pingfail, unl, lok>>
+                   \cup (IF \E r \in Live : started[r].model = e.model THEN {"two-runners-for-one-model"} ELSE {})
+                   \* "a new runner is started only on GPUs where it is predicted to fit in the memory the loaded models leave free"
+                   \cup (IF tiny /\ Live # {} THEN {"runner-started-where-it-does-not-fit"} ELSE {}))
+            /\ UNCHANGED <<max, closes, got, replies, ended, subm, pingfail, unl, lok, tiny>>
        [] e.ev = "grant" ->
             /\ got' = Put(got, e.q, e.r)
             /\ replies' = Put(replies, e.q, Get(replies, e.q, 0) + 1)
@@ -56,31 +59,31 @@ Step ==
                     THEN {"granted-runner-with-other-options"} ELSE {})
                    \cup (IF e.q \in DOMAIN subm /\ e.r \in DOMAIN started /\ started[e.r].model # subm[e.q].model
                     THEN {"granted-runner-of-other-model"} ELSE {}))
-            /\ UNCHANGED <<max, started, closes, ended, subm, pingfail, unl, lok>>
+            /\ UNCHANGED <<max, started, closes, ended, subm, pingfail, unl, lok, tiny>>
        [] e.ev = "refuse" ->
             /\ replies' = Put(replies, e.q, Get(replies, e.q, 0) + 1)
             /\ Report(e, IF Get(replies, e.q, 0) >= 1 THEN {"two-replies"} ELSE {})
-            /\ UNCHANGED <<max, started, closes, got, ended, subm, pingfail, unl, lok>>
+            /\ UNCHANGED <<max, started, closes, got, ended, subm, pingfail, unl, lok, tiny>>
        [] e.ev = "endctx" ->
             /\ ended' = ended \cup {e.q}
-            /\ Report(e, {}) /\ UNCHANGED <<max, started, closes, got, replies, subm, pingfail, unl, lok>>
+            /\ Report(e, {}) /\ UNCHANGED <<max, started, closes, got, replies, subm, pingfail, unl, lok, tiny>>
        [] e.ev = "close" ->
             /\ closes' = Put(closes, e.r, Get(closes, e.r, 0) + 1)
             /\ Report(e,
                  (IF \E q \in DOMAIN got : got[q] = e.r /\ q \notin ended THEN {"closed-while-in-use"} ELSE {})
                    \cup (IF Get(closes, e.r, 0) >= 1 THEN {"closed-twice"} ELSE {}))
-            /\ UNCHANGED <<max, started, got, replies, ended, subm, pingfail, unl, lok>>
+            /\ UNCHANGED <<max, started, got, replies, ended, subm, pingfail, unl, lok, tiny>>
        [] e.ev = "end" ->
             /\ Report(e,
                  (IF e.loaded = 0 - 1 THEN {"scheduler-stuck-holding-its-lock"} ELSE {})
                    \cup (IF e.loaded > 0 \/ e.unclosed # <<>> THEN {"not-drained"} ELSE {})
                    \cup (IF \E q \in DOMAIN subm : q \notin ended /\ Get(replies, q, 0) = 0 THEN {"request-never-answered"} ELSE {})
                    \cup (IF \E q \in DOMAIN subm : Get(replies, q, 0) > 1 THEN {"two-replies"} ELSE {}))
-            /\ UNCHANGED <<max, started, closes, got, replies, ended, subm, pingfail, unl, lok>>
-       [] e.ev = "pingfail" -> pingfail' = TRUE /\ Report(e, {}) /\ UNCHANGED <<max, started, closes, got, replies, ended, subm, unl, lok>>
-       [] e.ev = "unload" -> unl' = TRUE /\ Report(e, {}) /\ UNCHANGED <<max, started, closes, got, replies, ended, subm, pingfail, lok>>
+            /\ UNCHANGED <<max, started, closes, got, replies, ended, subm, pingfail, unl, lok, tiny>>
+       [] e.ev = "pingfail" -> pingfail' = TRUE /\ Report(e, {}) /\ UNCHANGED <<max, started, closes, got, replies, ended, subm, unl, lok, tiny>>
+       [] e.ev = "unload" -> unl' = TRUE /\ Report(e, {}) /\ UNCHANGED <<max, started, closes, got, replies, ended, subm, pingfail, lok, tiny>>
        [] e.ev = "loadresult" -> lok' = (IF e.ok THEN lok \cup {e.r} ELSE lok) /\ Report(e, {})
-                                 /\ UNCHANGED <<max, started, closes, got, replies, ended, subm, pingfail, unl>>
+                                 /\ UNCHANGED <<max, started, closes, got, replies, ended, subm, pingfail, unl, tiny>>
        \* the scheduler has settled while every request is still in progress.  When all requests so far name one model
        \* with one set of load options, nothing was unloaded explicitly and a runner of that model is loaded and alive,
        \* an unanswered request can only be waiting for that runner to become idle: it was not reused (C11)
@@ -90,7 +93,7 @@ Step ==
                     /\ \E q \in DOMAIN subm : Get(replies, q, 0) = 0 /\ q \notin ended
                                                /\ \E r \in Live \cap lok : started[r] = subm[q]
                  THEN {"compatible-request-waits-instead-of-reusing-the-loaded-runner"} ELSE {})
-            /\ UNCHANGED <<max, started, closes, got, replies, ended, subm, pingfail, unl, lok>>
-       [] OTHER -> Report(e, {}) /\ UNCHANGED <<max, started, closes, got, replies, ended, subm, pingfail, unl, lok>>
+            /\ UNCHANGED <<max, started, closes, got, replies, ended, subm, pingfail, unl, lok, tiny>>
+       [] OTHER -> Report(e, {}) /\ UNCHANGED <<max, started, closes, got, replies, ended, subm, pingfail, unl, lok, tiny>>
 Accepted == TLCGet("stats").diameter = Len(Trace) + 1
 ===============================================================================
